@@ -13,7 +13,7 @@ CRATES = {
     'deadpool_runtime': ('deadpool-runtime', 'tokio_1', 'runtime/src'),
     'deadpool_sync': ('deadpool-sync', '', 'sync/src'),
     'deadpool_postgres': ('deadpool-postgres', 'rt_tokio_1', 'postgres/src'),
-    'deadpool_redis': ('deadpool-redis', 'rt_tokio_1,sentinel,cluster', 'redis/src'),
+    'deadpool_redis': ('deadpool-redis', 'rt_tokio_1,sentinel,cluster,serde', 'redis/src'),
     'deadpool_sqlite': ('deadpool-sqlite', 'rt_tokio_1', 'sqlite/src'),
     'deadpool_r2d2': ('deadpool-r2d2', 'rt_tokio_1', 'r2d2/src'),
     'deadpool_diesel': ('deadpool-diesel', 'rt_tokio_1,sqlite', 'diesel/src'),
@@ -105,6 +105,40 @@ def scan_enums(crate):
     return out
 
 
+def scan_structs(crate):
+    """field order of the crate's structs with named fields: {(path relative to the repo, struct name): [field names]}"""
+    _, feats, src = CRATES[crate]
+    out = {}
+    for path in glob.glob(os.path.join(REPO, src, '**', '*.rs'), recursive=True):
+        txt = open(path).read()
+        txt = re.sub(r'//[^\n]*', '', txt)
+        txt = re.sub(r'/\*.*?\*/', '', txt, flags=re.S)
+        for m in re.finditer(r'\bstruct\s+(\w+)\s*(<[^{;(]*>)?\s*(where[^{]*)?\{', txt):
+            name = m.group(1); i = m.end(); d = 1; j = i
+            while j < len(txt) and d > 0:
+                if txt[j] == '{': d += 1
+                elif txt[j] == '}': d -= 1
+                j += 1
+            body = txt[i:j - 1]
+            parts = []; depth = 0; cur = ''
+            for c in body:
+                if c in '([{<': depth += 1
+                elif c in ')]}>': depth -= 1
+                if c == ',' and depth == 0:
+                    parts.append(cur); cur = ''
+                else:
+                    cur += c
+            if cur.strip(): parts.append(cur)
+            names = []
+            for v in parts:
+                skip = any('target_arch = "wasm32"' in a.group(1) and not a.group(1).strip().startswith('not') for a in re.finditer(r'#\[cfg\((.*?)\)\]', v, flags=re.S))
+                v = re.sub(r'#\[[^\]]*\]', '', v, flags=re.S).strip()
+                mm = re.match(r'^(?:pub(?:\([^)]*\))?\s+)?(\w+)\s*:', v)
+                if mm and not skip: names.append(mm.group(1))
+            out[(os.path.relpath(path, REPO), name)] = names
+    return out
+
+
 STD_ENUMS = {
     'Option': ['None', 'Some'], 'Result': ['Ok', 'Err'], 'Poll': ['Ready', 'Pending'], 'ControlFlow': ['Continue', 'Break'],
     'TryAcquireError': ['Closed', 'NoPermits'], 'Cow': ['Borrowed', 'Owned'], 'TryLockError': ['Poisoned', 'WouldBlock'],
@@ -116,7 +150,7 @@ class Program:
     """parsed MIR of one or more crates + drop shims + enum tables"""
 
     def __init__(s):
-        s.fns = {}; s.shims = {}; s.enums = dict(STD_ENUMS); s.dump_s = 0.0; s.crates = []; s.lines = 0
+        s.fns = {}; s.shims = {}; s.enums = dict(STD_ENUMS); s.dump_s = 0.0; s.crates = []; s.lines = 0; s.structs = {}
 
     def add_crate(s, crate):
         text, shims, dt = dump_crate(crate)
@@ -127,6 +161,7 @@ class Program:
             d = mir.parse_mir_text(t, crate, {})
             for n, f in d.items(): s.shims[n] = f
         for k, v in scan_enums(crate).items(): s.enums.setdefault(k, v)
+        s.structs.update(scan_structs(crate))
         if len(set(s.fns) - before) == 0: raise DumpError('empty MIR dump for ' + crate)
         return s
 
@@ -149,7 +184,7 @@ def dump_to_cache(crates):
         text, shims, dt = dump_crate(c)
         p = os.path.join(d, c + '.mir'); open(p, 'w').write(text)
         sp = os.path.join(d, c + '.shims.json'); json.dump(shims, open(sp, 'w'))
-        out[c] = {'mir': p, 'shims': sp, 'dump_s': round(dt, 2), 'enums': scan_enums(c)}
+        out[c] = {'mir': p, 'shims': sp, 'dump_s': round(dt, 2), 'enums': scan_enums(c), 'structs': [[list(k), v] for k, v in scan_structs(c).items()]}
     # old run directories are removed (keep the 4 most recent)
     # run directories older than two hours are removed
     now = time.time()
@@ -171,4 +206,5 @@ def load_cached(blobs, crates):
         for _, t in json.load(open(b['shims'])).items():
             for n, f in mir.parse_mir_text(t, c, {}).items(): p.shims[n] = f
         for k, v in b['enums'].items(): p.enums.setdefault(k, v)
+        for k, v in b.get('structs', []): p.structs[tuple(k)] = v
     return p
